@@ -56,8 +56,34 @@ def literal_elements():
     return out
 
 
+def _reused(which, first="count", second="total", inline=False):
+    """One Property wrapper placed in two holders under different names; returns one of the holders."""
+    p = Property(Integer(minimum=0), required=True)
+    if inline:
+        h1 = Object.inline("H1", properties={first: p})
+        h2 = Object.inline("H2", properties={second: p})
+        return Array((h1, h2)[which])
+    h1 = Element(properties={first: p})
+    h2 = Element(properties={second: p})
+    return (h1, h2)[which]
+
+
 def nested_elements():
     return [
+        ("Element(additionalProperties=Element())", lambda: Element(additionalProperties=Element())),
+        ("Element(additionalItems=Element())", lambda: Element(additionalItems=Element())),
+        ("Element(items=[..], additionalItems=Element())", lambda: Element(items=[String()], additionalItems=Element())),
+        ("Array(String(), additionalItems=Element())", lambda: Array(String(), additionalItems=Element())),
+        ("Array([..], additionalItems=Element(), additionalProperties nested)", lambda: Array([Element(additionalProperties=Element(), additionalItems=Nothing())], additionalItems=Element())),
+        ("Element(additionalProperties=Nothing(), additionalItems=True)", lambda: Element(additionalProperties=Nothing(), additionalItems=True)),
+        ("Element(additionalProperties=True, additionalItems=False)", lambda: Element(additionalProperties=True, additionalItems=False)),
+        ("Element(items=Element(), contains=Element(), propertyNames=Element())", lambda: Element(items=Element(), contains=Element(), propertyNames=Element())),
+        ("first holder of a re-used Property", lambda: _reused(0)),
+        ("second holder of a re-used Property", lambda: _reused(1)),
+        ("first holder of a re-used Property (same name)", lambda: _reused(0, "n", "n")),
+        ("first inline holder of a re-used Property", lambda: _reused(0, inline=True)),
+        ("second inline holder of a re-used Property", lambda: _reused(1, inline=True)),
+        ("one Property under two keys", lambda: (lambda p: Element(properties={"x": p, "y": p}))(Property(String(default="d")))),
         ("Element(items=String())", lambda: Element(items=String())),
         ("Element(items=[String(), Integer(minimum=1)])", lambda: Element(items=[String(), Integer(minimum=1)], additionalItems=False)),
         ("Element(additionalItems=Element(const=None))", lambda: Element(items=[Element()], additionalItems=Element(const=None))),
@@ -249,6 +275,10 @@ def check_element(st, label, factory, rank=0):
             y2 = eval(text2, namespace(x))
             if not (y2 == x):
                 st.violation("repr-after-use-does-not-rebuild", "%s: after some validations repr is %s, which does not rebuild the element" % (label, text2[:200]), {**case, "repr_after_use": text2[:600]}, rank)
+            elif text2 != text and y2 == y:
+                # the text may differ (a wrapper shared by two holders shows its JSON name or not, depending on who used it
+                # last) as long as it rebuilds the same element: that is all the property asks
+                st.outcome("repr-text-changed-by-use-but-rebuilds-the-same")
             elif text2 != text:
                 st.violation("repr-changed-by-use", "%s: repr before use %s, after use %s" % (label, text[:150], text2[:150]), {**case, "repr_after_use": text2[:600]}, rank)
         except Exception as exc:
